@@ -349,6 +349,115 @@ func main() {
 	}
 	fmt.Println(strings.Join(gos, ",\n"))
 	fmt.Println("]")
+	// package-level state around the admission handlers: every package-level variable of the files
+	// that contain an admission function, and every use of an own-package-level variable inside an
+	// admission function (assignment, or a method call on it — a cache, a set, a counter)
+	admFiles := map[string]bool{}
+	for k := range adm {
+		admFiles[strings.SplitN(k, " ", 2)[0]] = true
+	}
+	var admFileList []string
+	for f := range admFiles {
+		admFileList = append(admFileList, f)
+	}
+	sort.Strings(admFileList)
+	fmt.Println("\n/-- package-level variables declared in the files of the admission functions -/")
+	fmt.Println("def admissionFileVars : List (String × String) := [")
+	var fv []string
+	pkgVarsOfDir := map[string]map[string]bool{}
+	for _, p := range files {
+		rel, _ := filepath.Rel(repo, p)
+		dir := filepath.Dir(rel)
+		if pkgVarsOfDir[dir] == nil {
+			pkgVarsOfDir[dir] = map[string]bool{}
+		}
+		for _, d := range parsed[p].Decls {
+			gd, ok := d.(*ast.GenDecl)
+			if !ok || gd.Tok != token.VAR {
+				continue
+			}
+			for _, sp := range gd.Specs {
+				for _, n := range sp.(*ast.ValueSpec).Names {
+					if n.Name == "_" {
+						continue
+					}
+					pkgVarsOfDir[dir][n.Name] = true
+					if admFiles[rel] {
+						fv = append(fv, fmt.Sprintf("  (%q, %q)", rel, n.Name))
+					}
+				}
+			}
+		}
+	}
+	sort.Strings(fv)
+	fmt.Println(strings.Join(fv, ",\n"))
+	fmt.Println("]")
+	fmt.Println("\n/-- (file, admission function, use) for every assignment to, or method call on, a package-level")
+	fmt.Println("    variable of the function's own package inside an admission function -/")
+	fmt.Println("def admissionStateUses : List (String × String × String) := [")
+	var su []string
+	for _, p := range files {
+		rel, _ := filepath.Rel(repo, p)
+		vars := pkgVarsOfDir[filepath.Dir(rel)]
+		for _, d := range parsed[p].Decls {
+			fd, ok := d.(*ast.FuncDecl)
+			if !ok || fd.Body == nil || !adm[rel+" "+recvName(fd)] {
+				continue
+			}
+			seenUse := map[string]bool{}
+			rootOf := func(e ast.Expr) string {
+				for {
+					switch x := e.(type) {
+					case *ast.SelectorExpr:
+						e = x.X
+					case *ast.IndexExpr:
+						e = x.X
+					case *ast.StarExpr:
+						e = x.X
+					case *ast.ParenExpr:
+						e = x.X
+					case *ast.Ident:
+						return x.Name
+					default:
+						return ""
+					}
+				}
+			}
+			ast.Inspect(fd.Body, func(n ast.Node) bool {
+				switch x := n.(type) {
+				case *ast.AssignStmt:
+					if x.Tok != token.DEFINE {
+						for _, l := range x.Lhs {
+							if r := rootOf(l); vars[r] {
+								seenUse["assign "+render(l)] = true
+							}
+						}
+					}
+				case *ast.IncDecStmt:
+					if r := rootOf(x.X); vars[r] {
+						seenUse["incdec "+render(x.X)] = true
+					}
+				case *ast.CallExpr:
+					if se, ok := x.Fun.(*ast.SelectorExpr); ok {
+						if id, ok := se.X.(*ast.Ident); ok && vars[id.Name] && !(id.Obj != nil && id.Obj.Pos() >= fd.Pos() && id.Obj.Pos() <= fd.End()) {
+							seenUse["call "+id.Name+"."+se.Sel.Name] = true
+						}
+					}
+				}
+				return true
+			})
+			var us []string
+			for u := range seenUse {
+				us = append(us, u)
+			}
+			sort.Strings(us)
+			for _, u := range us {
+				su = append(su, fmt.Sprintf("  (%q, %q, %q)", rel, recvName(fd), u))
+			}
+		}
+	}
+	fmt.Println(strings.Join(su, ",\n"))
+	fmt.Println("]")
 	fmt.Printf("\n/-- number of Go files scanned -/\ndef admissionFilesScanned : Nat := %d\n", len(files))
 	fmt.Println("\nend Rangers.Generated.C07")
 	_ = rows
